@@ -8,12 +8,13 @@ from pyvc.contracts import contract
 WF = ["wf_file(parsed_file)"]
 
 
-def lastwins(kind, key, val):
+def lastwins(kind, key, val, str_values=False):
     """dict result: keys = names declared, value = that of the last declaration of the name"""
     S = f"stmts(parsed_file, '{kind}')"
     K = lambda j: key.format(t=f"{S}[{j}]")
     V = lambda j: val.format(t=f"{S}[{j}]")
-    return [
+    return ([
+        "forallv(lambda k: implies(dhas(result, k), typ(dget(result, k), 'str')))"] if str_values else []) + [
         "isfresh(result)",
         "forallv(lambda k: implies(dhas(result, k), typ(k, 'str')))",
         # every statement accounted for
@@ -27,11 +28,11 @@ def lastwins(kind, key, val):
 
 
 contract("decaylanguage.dec.dec.get_aliases", types={"parsed_file": "obj:Tree"}, requires=["wf_labels(parsed_file, 'alias')"],
-         ensures=lastwins("alias", "{t}.children[0].value", "{t}.children[1].value"),
+         ensures=lastwins("alias", "{t}.children[0].value", "{t}.children[1].value", True),
          returns="dict", properties=["C07"])
 
 contract("decaylanguage.dec.dec.get_charge_conjugate_defs", types={"parsed_file": "obj:Tree"}, requires=["wf_labels(parsed_file, 'chargeconj')"],
-         ensures=lastwins("chargeconj", "{t}.children[0].value", "{t}.children[1].value"),
+         ensures=lastwins("chargeconj", "{t}.children[0].value", "{t}.children[1].value", True),
          returns="dict", properties=["C07", "C03"])
 
 contract("decaylanguage.dec.dec.get_definitions", types={"parsed_file": "obj:Tree"}, requires=["wf_labels(parsed_file, 'define')"],
@@ -39,7 +40,7 @@ contract("decaylanguage.dec.dec.get_definitions", types={"parsed_file": "obj:Tre
          returns="dict", properties=["C07", "C05"])
 
 contract("decaylanguage.dec.dec.get_decays2copy_statements", types={"parsed_file": "obj:Tree"}, requires=["wf_labels(parsed_file, 'copydecay', 'label')"],
-         ensures=lastwins("copydecay", "{t}.children[0].children[0].value", "{t}.children[1].children[0].value"),
+         ensures=lastwins("copydecay", "{t}.children[0].children[0].value", "{t}.children[1].children[0].value", True),
          returns="dict", properties=["C07", "C08"])
 
 contract("decaylanguage.dec.dec._str_or_float", types={"arg": "str"},
